@@ -347,6 +347,11 @@ func TestDrv_C17(t *testing.T) {
 					}
 				}
 				pl.Close()
+				if oi%2 == 0 {
+					// a closed plot may be rendered more than once (the page, then its data again): what is kept here is the second
+					_, _ = pl.WriteTo(io.Discard)
+					_, _, _ = pl.VerifData()
+				}
 				data, labels, err = pl.VerifData()
 			}()
 			if addErr != nil {
